@@ -19,12 +19,12 @@ from ..common import Check, MachineryError, main_wrapper, TLA_DIR, VERIF, NCPU, 
 
 PID = 'C17'
 DRV_SRC = os.path.join(VERIF, 'harness', 'cdrv', 'drv_repo.c')
-MC_QUICK = ['Repository_q1', 'Repository_q3']
-MC_THOROUGH = ['Repository_q1', 'Repository_q2', 'Repository_q3', 'Repository_q4', 'Repository_q5', 'Repository_q6']
+MC_QUICK = ['Repository_q1', 'Repository_q3', 'Repository_q7']
+MC_THOROUGH = ['Repository_q1', 'Repository_q2', 'Repository_q3', 'Repository_q4', 'Repository_q5', 'Repository_q6', 'Repository_q7']
 # witness configurations: cause/coverage name -> cfg  (TLC's counterexample is replayed on the real code)
 WITNESS = ['versionless', 'lazy_upgrade', 'lazy_dependency', 'mem_other', 'closure_conflict',
            'partial', 'numeric', 'depconflict']
-EXPORT_DISKS = ['DiskVersions', 'DiskDeps', 'DiskBad', 'DiskOdd']
+EXPORT_DISKS = ['DiskVersions', 'DiskDeps', 'DiskBad', 'DiskOdd', 'DiskEqual']
 
 OPMAP = {'Prepend': 'prepend', 'Require': 'require', 'RequirePrivate': 'reqpriv', 'LoadMem': 'loadmem',
          'LoadedNamespaces': 'loaded', 'Version': 'version', 'TypelibPath': 'path', 'ImmediateDeps': 'ideps',
@@ -461,7 +461,7 @@ def run():
         with ThreadPoolExecutor(4) as ex:
             cases += list(ex.map(witness, WITNESS if not ck.quick else WITNESS[:5]))
         # -------------------------------------------------------- S->C 2: the exported call alphabet, all short histories
-        for q in (['xq1', 'xq3'] if ck.quick else ['xq1', 'xq2', 'xq3', 'xq4', 'xq5', 'xq6']):
+        for q in (['xq1', 'xq3', 'xq7'] if ck.quick else ['xq1', 'xq2', 'xq3', 'xq4', 'xq5', 'xq6', 'xq7']):
             cf = os.path.join(ck.tmp, 'cases-%s.json' % q)
             ck.tlc_mc('RepositoryCases', 'Repository_%s.cfg' % q, timeout=300, workers=1, coverage=False,
                       env={'CASES_FILE': cf}, label='export of worlds and call alphabet')
@@ -503,8 +503,10 @@ def run():
                                       src='directed: lazy load, eager request, queries'))
         if ck.quick:
             # quick: a seeded sample of the 2-call histories (thorough replays all of them)
-            exh = [c for c in cases if c['id'].startswith('exh-')]
+            exh = [c for c in cases if c['id'].startswith('exh-') and not c['id'].startswith('exh-xq7-')]
             keep = set(c['id'] for c in ck.rng.sample(exh, min(len(exh), 420)))
+            keep |= set(c['id'] for c in cases if c['id'].startswith('exh-xq7-') and c['calls'][0]['op'] in ('Prepend', 'Require')
+                        and c['calls'][1]['op'] in ('Require', 'Version', 'TypelibPath'))
             cases = [c for c in cases if not c['id'].startswith('exh-') or c['id'] in keep]
         # -------------------------------------------------------- S->C 3: simulated behaviours of the model
         nsim = 30 if ck.quick else 600
